@@ -10,6 +10,34 @@ ENGINES = [
 ]
 NA = {}
 TEXT = {
+    "C06": {
+        "engine": "rrtk-mc c06-accessor-agreement",
+        "technique": "exhaustive enumeration of a structured grid of constructor inputs (88k quick, 1.2M thorough) x a boundary-focused set of query instants, executed on the real MotionProfile with a relational (accessor-vs-accessor) oracle; boundaries recovered by bisection over all of i64",
+        "text": "For every grid profile the constructor accepts, all six accessors are read at ~25 instants including i64 "
+                "extremes and each phase boundary -1/0/+1 ns and must describe the same instant (exact relations, no "
+                "numeric tolerance); 0<=t1<=t2<=t3; end command = lowest non-zero derivative of the end state forever "
+                "after completion.",
+        "note": "The property is relational, so no numeric model is needed; coverage of the input space is the grid.",
+    },
+    "C07": {
+        "engine": "rrtk-mc c07-trapezoid",
+        "technique": "exhaustive enumeration of the same constructor grid x 40+ instants per profile on the real MotionProfile against an f64 reference trapezoid built from the profile's own boundaries; metamorphic mirror oracle; acceptance clause",
+        "text": "Acceleration values exact; velocity and position within a derived tolerance of the piecewise-quadratic "
+                "reference at t=0, boundaries +-1 ns and 33 equally spaced instants (continuity, integral relation, "
+                "velocity bound); reference end point = goal; mirrored inputs give identical boundaries and negated "
+                "outputs; comfortably feasible moves are accepted. One known finding (zero displacement, F5).",
+        "note": "Tolerance clause is the property's own; a wrong coefficient produces errors 1e5 x the tolerance.",
+    },
+    "C20": {
+        "engine": "rrtk-mc c20-actuator + c20-encoder + c20-pid-wrapper",
+        "technique": "stateless bounded-exhaustive exploration of round sequences (all 32^3/64^3 (32^4/64^4) sequences over the full environment alphabet, all 8^6 (8^7) over the partner options, 16/2 (32/3) deviation-bounded long sequences) on the three real wrappers with recording inner objects; differential oracle against a separately driven real CommandPID",
+        "text": "Per round the connected partner terminal receives state/command/both/nothing with new, repeated or older "
+                "timestamps, the inner getter is present/absent/erroring, the inner settable accepts or rejects and its "
+                "update succeeds or fails; after every wrapper update the recorded inner calls must be exactly the "
+                "terminal's combined read (actuator), the inner state bit-for-bit (encoder), or the value of a "
+                "stand-alone CommandPID fed the same (time, state, command) sequence (PID wrapper).",
+        "note": "Two states, two commands, irregular dyadic round spacing, PID initial time later than the first data.",
+    },
     "C08": {
         "engine": "rrtk-mc c08-two-terminal + c08-axle-differential + c08-tooth-lists",
         "technique": "stateless bounded-exhaustive exploration of set/update round sequences on real devices (every connection subset x every sequence of rounds over a 5-option-per-terminal alphabet, plus 8-round sequences with few non-empty rounds) against a least-squares projection reference",
